@@ -1,9 +1,11 @@
 SPECIFICATION Spec
 CONSTANTS
   Tier = "quick"
-  MaxN = 2
-  UaVals = {0, 1, 3}
+  MaxN = 3
+  UaVals = {1, 3}
   PvVals = {0, 1, 3}
   ChpVals = {0, 2}
-INVARIANTS Check CheckK CheckPrio CheckRer CheckStrip
+  SubVals = {2, 3, 4}
+  ScaleVals = {2, 3, 7}
+INVARIANTS CheckLayout
 CHECK_DEADLOCK FALSE
